@@ -96,6 +96,36 @@ class Path(object):
             s += " [in handler of %s]" % ", ".join(excs)
         return s
 
+    def exprs(self):
+        """[(event index, expression/statement node)] evaluated along the path, in order:
+        simple statements, branch tests, loop iterables (once per loop, when it is entered
+        or skipped), with-items.  'partial' statements are not included."""
+        out = []
+        seen_loops = set()
+        for i, e in enumerate(self.ev):
+            k = e[0]
+            if k == "stmt":
+                out.append((i, e[1]))
+            elif k == "cond":
+                out.append((i, e[1]))
+            elif k in ("iter", "loop0") and isinstance(e[1], (ast.For, ast.AsyncFor)):
+                if id(e[1]) not in seen_loops:
+                    seen_loops.add(id(e[1]))
+                    out.append((i, e[1].iter))
+            elif k == "with":
+                for it in e[1].items:
+                    out.append((i, it.context_expr))
+        return out
+
+    def calls(self):
+        """[(event index, Call node)] executed along the path (see exprs)."""
+        out = []
+        for i, n in self.exprs():
+            for c in A.walk_local(n):
+                if isinstance(c, ast.Call):
+                    out.append((i, c))
+        return out
+
     def yields(self):
         """[(event index, Yield node)] in order."""
         out = []
